@@ -94,6 +94,30 @@ def adversarial(rng: random.Random, n: int, start_tid: int):
         cands = [(a["pre_r"].x, b["pre_r"].x) for a, b in zip(its, its[1:]) if a["pre_r"].x > 300.0 and b["pre_r"].x - a["pre_r"].x > min_step * 1.02]
         if not cands:
             continue
+        if i % 5 == 0:
+            # no step given (one tenth of the range): the statement demands 11 rows.  Place the range so that the solver's
+            # accumulated sum of ten steps ends a rounding error ABOVE the range (then "a record distance within the
+            # range is still owed" must not be decided by an exact comparison with the range)
+            found = None
+            for x0, x1 in rng.sample(cands, min(len(cands), 40)):
+                for j in range(1, 20):
+                    R = round(x0 + (x1 - min_step - x0) * j / 20.0, 5)
+                    if not (x0 < R and x1 > R + min_step):
+                        continue
+                    maxr = m.Unit.Foot(R) >> m.Unit.Foot
+                    st = m.Unit.Inch(m.Unit.Foot(R).raw_value / 10.0) >> m.Unit.Foot
+                    acc = 0.0
+                    for _ in range(10):
+                        acc += st
+                    if acc > maxr:
+                        found = R
+                        break
+                if found:
+                    break
+            if found:
+                scs.append({"shot": p, "cfg": cfg, "tid": start_tid + i, "kind": "adversarial_range", "range_ft": found, "unit": "Foot",
+                            "step_ft": None, "extra": False, "sum_above": True})
+                continue
         x0, x1 = cands[rng.randrange(len(cands))]
         nn = rng.choice([3, 10])
         # x0 < R and x1 > R + min_step, with a step that divides R EXACTLY in floats (step on a 2^-20 grid, R = nn * step)
@@ -172,6 +196,8 @@ def run(chk: core.Check, replay=None) -> None:
                 chk.stratum("time_step")
             if sc["kind"] == "adversarial_range":
                 chk.stratum("adversarial_range_" + str(len(sc["shot"]["winds"])) + "_segments")
+                if sc.get("sum_above"):
+                    chk.stratum("adversarial_default_step_sum_of_steps_above_range")
         elif o["outcome"] not in ("RangeError",):
             if o["outcome"] == "timeout":
                 continue    # C04's business
@@ -180,7 +206,7 @@ def run(chk: core.Check, replay=None) -> None:
         chk.sample({"scenario": o["sc"], "outcome": o["outcome"], "rows": len(o["rows"]), "projected_lines": o["summ"].get("lines"),
                     "first_lines": o["lines"][:3]})
     chk.sample({"tlc_behaviour": {k: v for k, v in behs[0].items() if k != "consts"}})
-    chk.require_strata(["long_card_in_round_metric_numbers", "adversarial_range_1_segments", "adversarial_range_2_segments", "done", "tail_wind", "default_step", "non_dividing_step", "dividing_step", "time_step",
+    chk.require_strata(["long_card_in_round_metric_numbers", "adversarial_default_step_sum_of_steps_above_range", "adversarial_range_1_segments", "adversarial_range_2_segments", "done", "tail_wind", "default_step", "non_dividing_step", "dividing_step", "time_step",
                         "obj_flag_R", "obj_interpolated_row"])
     chk.exhaustive = False
     chk.rule.append("design: Integrator.tla exhaustively on the listed constant sets; spec->code: distinct TLC-simulated controller "
